@@ -60,7 +60,11 @@ RDEV = lambda: Obj(R + 'Device', chipset=Obj(R + 'Chipset', transport=Const(1)),
 RUSE = ['C13/rcs380.send_command', 'C13/check_crc_a']
 contract(R + 'Device.send_cmd_recv_rsp', 'C13',
          dict(self=RDEV(), target=RTGT(), data=Bytes(0, 262, mutable=True), timeout=OneOf(Const(0.1), None)),
-         name='C13/rcs380.send_cmd_recv_rsp', raises=DOC, use=RUSE)
+         name='C13/rcs380.send_cmd_recv_rsp', raises=DOC, use=RUSE,
+         # data is returned only when the 32-bit status word of the chip's InCommRF response is zero - every status
+         # bit (not only those of the first octet) is an error
+         ensures=[('O-status.ok', 'call_ret("C13/rcs380.send_command") is None or '
+                                  'call_ret("C13/rcs380.send_command")[0:4] == bytes(4)')])
 # which documented error: the status word of the chip's TgCommRF response (octets 3..6, little endian) is a
 # bit set; field loss (RF_OFF 0400h) is BrokenLinkError whatever else is set, else a receive timeout (0080h) is
 # TimeoutError, anything else TransmissionError
